@@ -744,6 +744,28 @@ pub fn c17(ctx: &mut Ctx, tier: &str, seed: u64) {
             }
         }
     }
+    // the PUBLIC constant tables are the documented sets (as sets), byte and char tables agree, and the
+    // separators / markers are the documented ones
+    {
+        use typed_path::constants::{unix as cu, windows as cw};
+        ctx.evals += 1;
+        let set = |v: &[u8]| { let mut x = v.to_vec(); x.sort(); x.dedup(); x };
+        let chars = |v: &[char]| { let mut x: Vec<u8> = v.iter().map(|c| *c as u32 as u8).collect(); x.sort(); x.dedup(); x };
+        let mut bad: Vec<String> = Vec::new();
+        if set(&cu::DISALLOWED_FILENAME_BYTES) != set(spec::UNIX_FORBIDDEN) { bad.push(format!("unix bytes {:?}", cu::DISALLOWED_FILENAME_BYTES)); }
+        if set(cw::DISALLOWED_FILENAME_BYTES) != set(spec::WINDOWS_FORBIDDEN) { bad.push(format!("windows bytes {:?}", cw::DISALLOWED_FILENAME_BYTES)); }
+        if chars(&cu::DISALLOWED_FILENAME_CHARS) != set(spec::UNIX_FORBIDDEN) || cu::DISALLOWED_FILENAME_CHARS.iter().any(|c| (*c as u32) > 0x7f) { bad.push(format!("unix chars {:?}", cu::DISALLOWED_FILENAME_CHARS)); }
+        if chars(cw::DISALLOWED_FILENAME_CHARS) != set(spec::WINDOWS_FORBIDDEN) || cw::DISALLOWED_FILENAME_CHARS.iter().any(|c| (*c as u32) > 0x7f) { bad.push(format!("windows chars {:?}", cw::DISALLOWED_FILENAME_CHARS)); }
+        if cu::SEPARATOR != '/' || cu::SEPARATOR_STR != "/" || cw::SEPARATOR != '\\' || cw::SEPARATOR_STR != "\\" || cw::ALT_SEPARATOR != '/' || cw::ALT_SEPARATOR_STR != "/" {
+            bad.push("separators".into());
+        }
+        if cu::CURRENT_DIR != b"." || cu::PARENT_DIR != b".." || cw::CURRENT_DIR != b"." || cw::PARENT_DIR != b".." || cu::CURRENT_DIR_STR != "." || cu::PARENT_DIR_STR != ".." || cw::CURRENT_DIR_STR != "." || cw::PARENT_DIR_STR != ".." {
+            bad.push("dot markers".into());
+        }
+        if !bad.is_empty() {
+            ctx.fail("public-tables-are-the-documented-sets", None, format!("valid w {}", hex(b"a")), bad.join("; "));
+        }
+    }
     ctx.sample(format!("valid w {}", hex(br"C:\a|b")));
     ctx.sample(format!("valid u {}", hex(b"a\0b")));
 }
